@@ -19,7 +19,7 @@ n = int(sys.argv[3]) if len(sys.argv) > 3 else 1500
 allrest = []
 for sd in range(a, b):
     r = random.Random(sd)
-    progs = [bindgen.random_program(i, r, 2 + i % 3) for i in range(n)]
+    progs = [bindgen.random_program(i, r, int(os.environ.get("BIND_DEPTH", "2")) + i % 3) for i in range(n)]
     want = oracle.bind_eval(progs, wd, "t")
     bad = []
     for v in bindgen.VARIANTS:
